@@ -186,6 +186,11 @@ DoLastParked(e) ==
        /\ G("C14:last-parked-result", e.result = ResultOf(g))
        /\ G("C14:requests-after-respond", ToSet(e.req) = requests \ {g})
        /\ G("C15:flags-changed-by-idle-callback", tr.cbOpen = open /\ tr.cbEn = enabled)
+       \* NoStuck (C14): everybody is about to wait, so nothing may be runnable - unless a thread
+       \* still owes the notification for a packet it has just pushed
+       /\ G("C14:parked-with-runnable-packet",
+            g = "None" => \/ \A b \in Stage : ~Pollable(b)
+                          \/ \E t \in DOMAIN tr.owe : tr.owe[t] # "none")
     THEN /\ LastParkedIdle(w, g)
          /\ tr' = done([tr EXCEPT !.stats = Bump(IF g = "Gc" THEN "gc_starts" ELSE "idle_callbacks")])
     ELSE FailStep
